@@ -5,22 +5,31 @@ from .. import rolllog_common as rc
 
 ID = 'C13'
 MODULES = ['OFModel.RollLog']
+PROP_FILES = ['C13', 'C13Stream']
 RULE = ('op sequences (<= 40 ops quick, <= 200 thorough) on one writable RollLog and one read-only RollLog in a fresh temp directory: mode in '
         '{bin, binl, txt, json} x file_size in {1..100} x total_size from 1 byte (< one file) to unlimited x autorefresh on/off; ops = write '
         '(single/iterable/embedded-newline/bytearray/memoryview/empty payloads; explicit timestamps increasing by 0.4 us..100 s, equal, or '
         'stepping backwards; 15 % from the patched wall clock), read/read_block on either instance, seek start/end/told position/file/'
         'malformed name, seek_block, tell, refresh, write_head, close, reopen (also without close), external deletion of any file incl. '
         'the one being written or read, ops on closed instances; every history ends with a drain of the reader. non-trivial = at least two '
-        'log files existed and a reader returned at least one record')
+        'log files existed and a reader returned at least one record. Proved for all op sequences without a writer restart '
+        '(C13_reader_stream): per segment between seeks/restarts of the read-only instance, what it returns is a subsequence of what was '
+        'written, without repetition, and skips only records whose file was unlinked when the reader passed them')
 ASSUMPTIONS = ['one writer per directory (RollLog docstring); other processes only delete files',
                'write(flush=True) (the default): other file handles see whole records only; calls are atomic (every method holds self.lock)',
                'a log file name is identified with the integer microsecond value it starts with; one prefix/suffix/time zone per directory',
                'bin mode has no record delimiters: a record is one written chunk, reads return concatenations of whole chunks, seeks only go to told offsets',
                'the log directory itself is not removed; clock later than every existing file (constructor time-traveller check not modelled)',
-               'C13_reader_refines_partial / C13_reader_invariant: runs from the empty directory without a writer restart, explicit timestamps > 0 '
-               '(a restarted writer may reuse or go below an externally deleted newest name: pending_fixes/C13-name-regression.finding.md); '
-               'the theorem is per read (nothing on disk passed over, whole records at the handle offset), its composition into a whole-history '
-               'statement and no-duplicates across a re-basing refresh are covered by the oracle only',
+               'C13_reader_stream (lean/OFProps/C13Stream.lean; also C13_reader_refines_partial / C13_reader_invariant): runs from the empty directory '
+               'without a writer restart, explicit timestamps > 0 (a restarted writer may reuse or go below an externally deleted newest name: '
+               'pending_fixes/C13-name-regression.finding.md). WHOLE-HISTORY statement for the read-only instance, per segment (a segment = any '
+               'stretch of ops without a seek / restart / close / crash of the read-only instance, starting at the position the last such op '
+               'established, assumed to be a record boundary - aligned_after_cut / aligned_after_reopen: true after every seek except '
+               'seek((name, byte offset)) and after a restart without head file): the delivered stream is a SUBSEQUENCE of the ghost stream of '
+               'everything written (written_write: writing order), contains no record twice - also across a refresh that re-bases the position '
+               'after all known files have gone -, and every written record between the segment start and the reader (or any delivered record) '
+               'that is not delivered was passed at a moment when its file existed and was unlinked (pruned / deleted). Not proved (oracle only): '
+               'histories with a writer restart, the writable instance reading its own log, seeks into the middle of a record',
                'C13_no_overwrite, C13_append_only, C13_budget, C13_newest_kept: any op sequence incl. writer restarts, from any directory whose file names are distinct and in creation order']
 TRUSTED = ['framing of the four modes (records_of/raw_records in harness/ofverif/rolllog_common.py) maps payloads to the model\'s (id, size) records',
            'POSIX unlink semantics (open handles keep the inode) as modelled by File.linked']
